@@ -31,7 +31,7 @@ def _scratch():
     return d
 
 
-def run_jobs(jobs, nproc=None, per_job_wall=240, tag="b"):
+def run_jobs(jobs, nproc=None, per_job_wall=420, tag="b"):
     """jobs: list of job dicts, each with 'id', 'root_id' and 'hashseed'.
     Returns {id: result}.  Raises HarnessError if a worker dies or times out."""
     nproc = nproc or NPROC
